@@ -215,10 +215,11 @@ Theorem other_policy_no_cache : forall ser deser md5 q_none q_stale c pol t w un
 Proof. exact other_policy_no_cache_l. Qed.
 Print Assumptions other_policy_no_cache.
 
-(* options re-attachment.  FALSE of the code as it is (q_none = true):
+(* options re-attachment: options_reattached is the claim about the code as it is now
+   (q_none = false, repaired in 7f23215).  For the loop as it was (q_none = true) the statement
      forall w ..., building a client over a warm cache ends with the options attached
-   refuted by a WSDL with a wsdl:import of a schema; proved for the repaired loop and, for the
-   code as it is, under the guard "no wsdl:import targets a schema". *)
+   is refuted by a WSDL with a wsdl:import of a schema and holds only under the guard "no
+   wsdl:import targets a schema"; the harness reports a return of that behaviour as a violation. *)
 Theorem options_reattached : forall ser deser md5 q_stale c pol t w unwrap f,
   exists fetched wr f', defs_open ser deser md5 false q_stale c pol t w unwrap f
                         = (Ret (fetched, COk true wr), f').
@@ -242,9 +243,11 @@ Theorem reattach_schema_import_refuted :
 Proof. vm_compute. reflexivity. Qed.
 Print Assumptions reattach_schema_import_refuted.
 
-(* the wrapped/bare decision (options.unwrap).  FALSE of the code as it is (q_stale = true):
+(* the wrapped/bare decision (options.unwrap): wrapped_follows_options is the claim about the
+   code as it is now (q_stale = false, repaired in 247d4f1).  For the code as it was
+   (q_stale = true) the statement
      a client built with unwrap=U over a warm cache wraps as an uncached client with unwrap=U
-   refuted by a cache filled with unwrap=True and a client asking for unwrap=False. *)
+   is refuted by a cache filled with unwrap=True and a client asking for unwrap=False. *)
 Theorem wrapped_follows_options : forall ser deser md5 q_none c pol t w unwrap f fetched cur wr f',
   defs_open ser deser md5 q_none false c pol t w unwrap f = (Ret (fetched, COk cur wr), f') ->
   wr = (w_docstyle w && unwrap).
